@@ -9,3 +9,5 @@ import AkVerif.Props.C18
 import AkVerif.Props.C08
 import AkVerif.Props.C03
 import AkVerif.Props.C13
+import AkVerif.Props.C04
+import AkVerif.Props.C05
